@@ -62,10 +62,12 @@ def mh_sx(mh):
     k = mh[0]
     if k in ("intRange", "listSize", "listSizeNoOps", "interval", "floatList", "depIntRangeLo", "depIntRangeHi", "depIntRangeSpan", "depListSize", "depVarFrom"):
         return list(mh)
-    if k in ("intList", "varRange"):
+    if k == "intList":
         return [k, list(mh[1])]
+    if k == "varRange":
+        return [k, [hexs(x) if isinstance(x, str) else x for x in mh[1]]]
     if k == "strSize":
-        return [k, mh[1], mh[2], list(mh[3])]
+        return [k, mh[1], mh[2], [hexs(x) for x in mh[3]]]
     raise ValueError(mh)
 
 
@@ -298,7 +300,7 @@ def hexs(s: str) -> str:
     identifier-like atom, otherwise 0x<hex>."""
     if s == "":
         return "-"
-    if s.isalnum() and s.isascii():
+    if s.isalnum() and s.isascii() and not s.startswith("0x"):
         return s
     return "0x" + s.encode().hex()
 
